@@ -238,6 +238,21 @@ def source_tie(run, parts=("mz",)):
     return not bad
 
 
+def source_corollaries(run, module, theorems, parts, allowed_axioms=()):
+    """Property theorems restated about the GENERATED definitions (the translation of the current source), obtained from the
+    model theorems through the tie lemmas (coq/Properties/<module>.v).  They are obligations exactly when the ties they go
+    through are established in this run; when a tie is unavailable / field-level / mismatching the generated definitions they
+    mention may not even exist, and what that means for the check has already been decided by source_tie."""
+    st = run.cov.get("source_level_tie", {})
+    missing = [k for k in parts if not st.get(k, {}).get("established")]
+    if missing:
+        run.cov.setdefault("source_level_corollaries", {})[module] = "not re-established in this run: tie %s" % ", ".join(
+            "%s is %s" % (k, st.get(k, {}).get("status", "not evaluated")) for k in missing)
+        return []
+    run.cov.setdefault("source_level_corollaries", {})[module] = "re-proved about the translation of the current source: " + ", ".join(theorems)
+    return standard_proof_obligations(run, module, theorems, allowed_axioms=allowed_axioms)
+
+
 def ensure_makefile():
     mk = os.path.join(COQ, "Makefile")
     cp = os.path.join(COQ, "_CoqProject")
